@@ -1,0 +1,159 @@
+//! Verification hooks of the `netrep` group (only compiled with `--cfg iroh_verif`).
+//!
+//! Public entry points to crate-private items, used by the conformance harness in
+//! `/verif/harness` (properties C25-C28):
+//!
+//! - net report aggregation: [`report_update`], [`latencies_update_relay`],
+//!   [`latencies_merge`], [`latencies_get`], [`ReportHistory`];
+//! - the home relay watchable: [`HomeRelay`];
+//! - the direct-address update lock: [`c25_lock_held`].
+#![allow(missing_docs, missing_debug_implementations, clippy::unwrap_used)]
+
+use std::{
+    net::SocketAddr,
+    sync::{Arc, Mutex, Weak},
+    time::Duration,
+};
+
+use iroh_base::RelayUrl;
+use n0_error::AnyError;
+use tokio::sync::Mutex as AsyncMutex;
+
+pub use crate::net_report::{Probe, RelayLatencies, Report};
+use crate::{
+    net_report::Client,
+    socket::transports::{HomeRelayWatch, RelayConnectionState},
+};
+
+/// `Report::update` with a probe report built from its parts.
+pub fn report_update(
+    report: &mut Report,
+    probe: Probe,
+    relay: RelayUrl,
+    latency: Duration,
+    addr: SocketAddr,
+) {
+    report.verif_update(probe, relay, latency, addr);
+}
+
+/// `RelayLatencies::update_relay`.
+pub fn latencies_update_relay(
+    table: &mut RelayLatencies,
+    url: RelayUrl,
+    latency: Duration,
+    probe: Probe,
+) {
+    table.verif_update_relay(url, latency, probe);
+}
+
+/// `RelayLatencies::merge`.
+pub fn latencies_merge(table: &mut RelayLatencies, other: &RelayLatencies) {
+    table.verif_merge(other);
+}
+
+/// `RelayLatencies::get`.
+pub fn latencies_get(table: &RelayLatencies, url: &RelayUrl) -> Option<Duration> {
+    table.verif_get(url)
+}
+
+/// The report history of a `net_report::Client` (no relays, no probes).
+pub struct ReportHistory(Client);
+
+impl ReportHistory {
+    pub fn new(tls_config: rustls::ClientConfig) -> Self {
+        Self(Client::verif_new(tls_config))
+    }
+
+    /// `Client::add_report_history_and_set_preferred_relay`.
+    pub fn add_report_and_set_preferred_relay(&mut self, report: &mut Report) {
+        self.0.verif_add_report_history(report);
+    }
+
+    pub fn len(&self) -> usize {
+        self.0.verif_history_len()
+    }
+
+    pub fn is_empty(&self) -> bool {
+        self.len() == 0
+    }
+}
+
+/// Connection states as the harness names them.
+#[derive(Debug, Clone, Copy, PartialEq, Eq)]
+pub enum HomeRelayState {
+    Connecting,
+    Connected,
+    /// `Disconnected` with an error attached (distinguishable through the public
+    /// `RelayStatus` accessors).
+    Disconnected,
+}
+
+/// A `HomeRelayWatch` (clones share the watchable, like the clones held by the actors).
+#[derive(Clone, Default)]
+pub struct HomeRelay(HomeRelayWatch);
+
+impl HomeRelay {
+    fn state(state: HomeRelayState) -> RelayConnectionState {
+        match state {
+            HomeRelayState::Connecting => RelayConnectionState::Connecting,
+            HomeRelayState::Connected => RelayConnectionState::Connected,
+            HomeRelayState::Disconnected => RelayConnectionState::Disconnected {
+                last_error: Some(Arc::new(AnyError::from_string("verif".to_string()))),
+            },
+        }
+    }
+
+    /// `HomeRelayWatch::set` (what `RelayActor::on_network_change` does for a new home relay).
+    pub fn set(&self, url: RelayUrl, state: HomeRelayState) {
+        self.0.verif_set(url, Self::state(state));
+    }
+
+    /// `HomeRelayWatch::clear`.
+    pub fn clear(&self) {
+        self.0.verif_clear();
+    }
+
+    /// `HomeRelayWatch::set_status` (what an `ActiveRelayActor` does).
+    pub fn set_status(&self, url: &RelayUrl, state: HomeRelayState) {
+        self.0.verif_set_status(url, Self::state(state));
+    }
+
+    /// The advertised home relay and its state.
+    pub fn get(&self) -> Option<(RelayUrl, HomeRelayState)> {
+        self.0.verif_get().map(|status| {
+            let state = if status.is_connected() {
+                HomeRelayState::Connected
+            } else if status.last_error().is_some() {
+                HomeRelayState::Disconnected
+            } else {
+                HomeRelayState::Connecting
+            };
+            (status.url().clone(), state)
+        })
+    }
+
+    /// The value seen by a fresh watcher of the watchable.
+    pub fn watched_url(&self) -> Option<RelayUrl> {
+        use n0_watcher::Watcher;
+        self.0.watch().get().map(|status| status.url().clone())
+    }
+}
+
+static C25_NET_REPORTER: Mutex<Option<Weak<AsyncMutex<Client>>>> = Mutex::new(None);
+
+/// Remembers the net reporter lock of the most recently created socket.
+pub(crate) fn c25_register(net_reporter: &Arc<AsyncMutex<Client>>) {
+    *C25_NET_REPORTER.lock().unwrap_or_else(|e| e.into_inner()) = Some(Arc::downgrade(net_reporter));
+}
+
+/// Whether an owned guard of the net reporter lock of the most recently created socket
+/// exists (a direct-address update run holds it).  Does not touch the lock itself: an
+/// owned guard keeps a clone of the `Arc`, so the strong count tells.
+pub fn c25_lock_held() -> Option<bool> {
+    let guard = C25_NET_REPORTER.lock().unwrap_or_else(|e| e.into_inner());
+    let weak = guard.as_ref()?;
+    match weak.strong_count() {
+        0 => None,
+        n => Some(n > 1),
+    }
+}
